@@ -66,22 +66,22 @@ def _bit(ctx, args, kwargs):
     word, i = args
     n = _m_int_from_bytes(ctx, [word, "big"], {})
     if not is_sym(i) and not is_sym(n):
-        return (n >> i) & 1
-    if is_sym(i) and is_sym(n) and n.bv is not None:
+        return S.bit(word, i)
+    if is_sym(i):
         it = int_term(i)
-        if not ctx.branch(z3.And(it >= 0, it < n.bv.size())):
-            return 0
+        width = n.nbits if (is_sym(n) and n.nbits is not None) else 64
+        if not ctx.branch(z3.And(it >= 0, it < width)):
+            if is_sym(n) and n.nbits is not None:
+                return 0
+            ctx.unsupported("bit() index outside 0..63 of an unbounded word")
     ii = ctx.concretize_int(i, 70, "bit index")
     if ii < 0:
         return 0
-    if is_sym(n) and n.bv is not None and ii >= n.bv.size():
-        return 0
     if not is_sym(n):
         return (n >> ii) & 1
-    if is_sym(n) and n.bv is not None:
-        b = z3.Extract(ii, ii, n.bv)
-        return SInt(z3.BV2Int(b), bv=b)
-    return SInt((int_term(n) / z3.IntVal(1 << ii)) % 2)
+    if n.nbits is not None and ii >= n.nbits:
+        return 0
+    return SInt((int_term(n) / z3.IntVal(1 << ii)) % 2, nbits=1)
 
 
 def _is_digits(ctx, args, kwargs):
